@@ -574,22 +574,16 @@ func SelectRecv(chans ...any) int {
 		for i, v := range vs {
 			cases[i] = reflect.SelectCase{Dir: reflect.SelectRecv, Chan: v}
 		}
-		// we must not consume: poll until one is ready (pass-through mode is only used outside explorations)
-		for {
-			for i, v := range vs {
-				if v.IsValid() && !v.IsNil() && v.Len() > 0 {
-					return i
-				}
+		// pass-through (outside explorations): a real blocking select. A received value is put
+		// back (buffered channels only) because the rewritten case body performs the receive.
+		chosen, recv, ok := reflect.Select(cases)
+		if ok {
+			if vs[chosen].Cap() == 0 {
+				panic("verifrt: pass-through select on an unbuffered channel is not supported")
 			}
-			for i, v := range vs {
-				if v.IsValid() && !v.IsNil() && v.Len() == 0 {
-					if x, ok := v.TryRecv(); !ok && x.IsValid() {
-						return i
-					}
-				}
-			}
-			time.Sleep(50 * time.Microsecond)
+			vs[chosen].Send(recv)
 		}
+		return chosen
 	}
 	Point("select", nil, func() bool {
 		for _, v := range vs {
